@@ -141,6 +141,28 @@ def check_precision(cfg, sizes, rnd):
         err = float((a - b.double()).abs().max())
         if err > 64 * eps * (64 * gain * xmax + bias):
             return False, '%s/%s: float32 error %.3g exceeds 64*eps32*(64*gain*max|x|+bias) = %.3g' % (kind, pattern, err, 64 * eps * (64 * gain * xmax + bias))
+    # float64 is really computed in float64: a perturbation far below float32 resolution is carried through exactly
+    # (linear transforms): T(x + d) - T(x) == T(d) with |d| = 1e-9 |x|; an internal detour through float32 loses d entirely
+    if not kind.startswith('scat'):
+        def scaled(inp, f):
+            if isinstance(inp, tuple):
+                return (f(inp[0]), [f(h) for h in inp[1]])
+            return f(inp)
+        rs2 = np.random.RandomState(7)
+        dl = scaled(i64, lambda t: torch.tensor(rs2.randn(*t.shape)) * 1e-9 * max(xmax, 1e-300))
+        plus = scaled(i64, lambda t: t)
+        if isinstance(i64, tuple):
+            plus = (i64[0] + dl[0], [a + b for a, b in zip(i64[1], dl[1])])
+        else:
+            plus = i64 + dl
+        o_plus, o_d = _flat(m64(plus)), _flat(m64(dl))
+        for a, b, c in zip(o_plus, o64, o_d):
+            if a.numel() <= 1:
+                continue
+            resid = float(((a - b) - c).abs().max())
+            if resid > 1e-3 * float(c.abs().max()) + 1e-300:
+                return False, '%s/%s: float64 call is not computed in float64: a 1e-9 relative perturbation is not carried through (residual %.3g vs %.3g)' % (
+                    kind, pattern, resid, float(c.abs().max()))
     # a float64 module on float64 data does not consult torch.get_default_dtype() at call time: bit-identical results
     # whether the call happens under a float32 or a float64 default (and symmetrically for the float32 module)
     for mod_, inp_, ref_, other in ((m64, i64, o64, torch.float64), (m32, i32, o32, torch.float64)):
